@@ -332,14 +332,14 @@ int main(int argc, char* const* argv)
         if (header != "") script_lines[i++] = strdup(header.c_str());
         it = script->begin();
         while (script->GetOp(it, opcode, vchPushValue)) {
-            char* pbuf = buf;
-            pbuf += snprintf(pbuf, 1024, "#%04d ", i);
+            // build the line in a string: a 520 byte push is 1040 hex characters, more than a fixed 1024 byte buffer holds
+            std::string line = strprintf("#%04d ", i);
             if (vchPushValue.size() > 0) {
-                snprintf(pbuf, 1024 - (pbuf - buf), "%s", HexStr(std::vector<uint8_t>(vchPushValue.begin(), vchPushValue.end())).c_str());
+                line += HexStr(std::vector<uint8_t>(vchPushValue.begin(), vchPushValue.end()));
             } else {
-                snprintf(pbuf, 1024 - (pbuf - buf), "%s", GetOpName(opcode).c_str());
+                line += GetOpName(opcode);
             }
-            script_lines[i++] = strdup(buf);
+            script_lines[i++] = strdup(line.c_str());
         }
     }
 
